@@ -69,6 +69,18 @@ def half_limb_product(m, nlimbs, rich=False):
     return dedup(out)
 
 
+def sign_limb_product(nlimbs):
+    """operands whose 64-bit limbs are 0, all ones, 2^63 or 2^63-1: the values at which a limb (or the high half of a limb product) changes
+    its top bit - signed-overflow flags of legacy add/adc instructions, sign extensions and arithmetic shifts turn there"""
+    out = []
+    for combo in itertools.product([0, 2**64 - 1, 2**63, 2**63 - 1], repeat=nlimbs):
+        v = 0
+        for i, l in enumerate(combo):
+            v |= l << (64 * i)
+        out.append(v)
+    return out
+
+
 def boundary(m, bits, seed, nfill=16, tag="B"):
     """Named boundary values B(m) (all reduced into [0, m))."""
     R = pow(2, bits, m)
